@@ -9,6 +9,8 @@ Inductive op :=
 | OpChoose (i : Z) | OpUndo | OpRedo | OpGoto (spec : string) | OpReset | OpRead
 | OpReload    (* save_state -> JSON -> load_state into a fresh engine, play continues there: by C05 (load_faithful)
                  the situation is unchanged and both stacks are empty *)
+| OpInput (k v : string)   (* submit_inputs({k: v}): merged into the variable _inputs, nothing else happens *)
+| OpBadLoad   (* load_state of a malformed document: ValueError, the running game untouched (C05 load_rejects_malformed) *)
 | OpSave      (* keep save_state() (after a JSON round trip) in the one save slot: no effect on the game *)
 | OpLoad.     (* load_state(slot) into the SAME engine: the saved situation, both stacks empty (no-op when the slot is
                  empty).  The slot lives in [run]; [step] alone treats OpSave/OpLoad as no-ops. *)
@@ -62,6 +64,13 @@ Definition step (e : estate) (o : op) : estate * obs :=
   | OpRead => (e, ObsOk)
   | OpReload => (mkES (ec e) [] [] (escopes e) (elog e), ObsOk)
   | OpSave | OpLoad => (e, ObsOk)
+  | OpBadLoad => (e, ObsExc ValueError)
+  | OpInput k v =>
+      let c := ec e in
+      let d := match lookup "_inputs"%string (vars c) with Some (VDict d) => d | _ => [] end in
+      (mkES (mkCore (cur c) (set_key "_inputs"%string (VDict (set_key k (VStr v) d)) (vars c)) (used c) (hooks c)
+                    (joinidx c) (out c))
+            (undo_stack e) (redo_stack e) (escopes e) (elog e), ObsOk)
   end.
 
 Fixpoint run_slot (e : estate) (slot : option core) (ops : list op) : list (obs * view) :=
